@@ -221,9 +221,24 @@ def wl_values(ctx, rng, case_no):
         from rv.gen import specs as SP
         from rv.model import consoles
         route = "Pretty-renderable"
-        _, plines = SP.render_lines_cells(consoles.layout_console(max_width),
-                                          Pretty(v, indent_size=indent_size, expand_all=expand_all, no_wrap=True,
-                                                 overflow="ignore"))
+        pretty = Pretty(v, indent_size=indent_size, expand_all=expand_all, no_wrap=True, overflow="ignore")
+        pconsole = consoles.layout_console(max_width)
+        if rng.random() < 0.5:
+            # one Pretty object lives through a layout pass (measured, as a table cell or Panel.fit would) and is
+            # printed later; meanwhile the program goes on filling the container it wraps
+            from rich.measure import Measurement
+            Measurement.get(pconsole, pretty, max_width)
+            route += "+measured-before"
+            if isinstance(v, list):
+                v.append(rng.choice([0, "late", None]))
+                route += "+mutated"
+            elif isinstance(v, dict) and type(v) is dict:
+                v["late"] = 1
+                route += "+mutated"
+            elif isinstance(v, set):
+                v.add("late")
+                route += "+mutated"
+        _, plines = SP.render_lines_cells(pconsole, pretty)
         out = "\n".join(plines)
         ctx.count("mon.pretty_renderable")
     else:
